@@ -12,7 +12,7 @@ import PlinioVerif.Model.SuperNet
 (`plain`: no choice node left; `sim`: every surviving node has the value it has in the hard
 evaluation of the SuperNet, for the structural-hash leaf semantics; `out`: that hash of the output)
 or `err hyp=<0|1>` when the surgery raises.  `hyp`: the traced graph satisfies the hypotheses of the
-C03 theorems (`WF`, `IOSane`, `Discipline`). -/
+C03 theorems (`WF`, `IOSane`, `Discipline`, the last node is the `output`). -/
 open PlinioVerif PlinioVerif.Proto PlinioVerif.SuperNet
 
 def parseArgs? (s : String) : Option (List Nat) :=
@@ -72,7 +72,7 @@ def handle (line : String) : String :=
           (field? toks "nodes").bind (parseList? parseNode?) with
     | some alpha, some mods, some g =>
       let win := winners alpha
-      let hyp := s!"hyp={showBool (wfB g && ioSaneB g && disciplineB win g)}"
+      let hyp := s!"hyp={showBool (wfB g && ioSaneB g && disciplineB win g && (Graph.nd g (g.length - 1)).op == Op.output)}"
       match exportGraph win g with
       | none => s!"err {hyp}"
       | some g' =>
